@@ -330,8 +330,9 @@ def _pad(repo, col):
         for c in ast.walk(fi.node):
             if isinstance(c, ast.Call) and isinstance(c.func, ast.Attribute) and c.func.attr in ("set", "add") and \
                     isinstance(c.func.value, ast.Subscript) and isinstance(c.func.value.value, ast.Attribute) and c.func.value.value.attr == "at":
-                ix = ex.term(c.func.value.slice)
-                raw, remapped = c10._strip_drop_remap(ix, c, ex.term(c.func.value.value.value))
+                from sa.terms import fuse_comprehensions as _fuse_ix
+                ix = _fuse_ix(idx.inline(repo, fi, ex.term(c.func.value.slice)))
+                raw, remapped = c10._strip_drop_remap(ix, c, _fuse_ix(ex.term(c.func.value.value.value)))
                 sp = cl.space(raw, "node")
                 if sp is None or not sp.sentinel:
                     continue
